@@ -578,10 +578,15 @@ func (txn *Txn) commitAndSend() (func() error, error) {
 	// var b strings.Builder
 	// fmt.Fprintf(&b, "Read: %d. Commit: %d. reads: %v. writes: %v. Keys: ",
 	// 	txn.readTs, commitTs, txn.reads, txn.conflictKeys)
-	for _, e := range txn.pendingWrites {
+	// The duplicates go first: they are always older than the pending entry of their key (and
+	// are in issue order among themselves), and a request is applied in slice order. With the
+	// pending entries first, an earlier write of the same key and version overwrote the later
+	// one (managed WriteBatch: SetEntryAt(k,"one",5), SetEntryAt(k,"two",7),
+	// SetEntryAt(k,"three",5) left "one" at version 5).
+	for _, e := range txn.duplicateWrites {
 		processEntry(e)
 	}
-	for _, e := range txn.duplicateWrites {
+	for _, e := range txn.pendingWrites {
 		processEntry(e)
 	}
 
